@@ -838,13 +838,79 @@ func (c *Ctx) parseFactsOf(t *tables, m *types.Func, node string, entries map[*t
 			switch pf.fieldSrc[tf] {
 			case "current@entry":
 				pf.tokField[tf] = pf.entry
+				if len(pf.entry) == 0 {
+					// the node is built right inside a `case K:` of a switch over the current token's type (a node the
+					// statement dispatcher makes itself): the token kept is of type K
+					if ks := c.caseTypesOfNodeLit(fd, node); len(ks) > 0 {
+						pf.tokField[tf] = ks
+						for k := range ks {
+							pf.checked[k] = true
+						}
+					}
+				}
 			case "current":
 				// the current token after an expect: the last expected terminal before the assignment
 				pf.tokField[tf] = c.lastExpectBefore(fd, tf, node)
+				if len(pf.tokField[tf]) == 0 && len(pf.entry) == 0 {
+					if ks := c.caseTypesOfNodeLit(fd, node); len(ks) > 0 {
+						pf.tokField[tf] = ks
+						for k := range ks {
+							pf.checked[k] = true
+						}
+					}
+				}
 			}
 		}
 	}
 	return pf
+}
+
+// caseTypesOfNodeLit: the token constants of the `case` clauses (of a switch over p.CurrentToken.Type) that directly
+// contain a composite literal of ast.<node>.
+func (c *Ctx) caseTypesOfNodeLit(fd *ast.FuncDecl, node string) map[int64]bool {
+	info := c.Pkgs["parser"].TypesInfo
+	out := map[int64]bool{}
+	ast.Inspect(fd.Body, func(n ast.Node) bool {
+		sw, ok := n.(*ast.SwitchStmt)
+		if !ok || sw.Tag == nil || types.ExprString(sw.Tag) != "p.CurrentToken.Type" {
+			return true
+		}
+		for _, cl := range sw.Body.List {
+			cc, ok := cl.(*ast.CaseClause)
+			if !ok || len(cc.List) == 0 {
+				continue
+			}
+			has, callBefore := false, false
+			for _, st := range cc.Body {
+				ast.Inspect(st, func(m ast.Node) bool {
+					switch x := m.(type) {
+					case *ast.CallExpr:
+						if !has {
+							callBefore = true // something may have moved the token window before the node is built
+						}
+					case *ast.CompositeLit:
+						if tv, ok := info.Types[x]; ok && namedIs(tv.Type, "ast", node) {
+							has = true
+						}
+					}
+					return true
+				})
+			}
+			if callBefore {
+				continue
+			}
+			if !has {
+				continue
+			}
+			for _, e := range cc.List {
+				if k, ok := c.tokConstOf(info, e); ok {
+					out[k] = true
+				}
+			}
+		}
+		return true
+	})
+	return out
 }
 
 // lastExpectBefore: the token type expected (ExpectToken / list end) immediately before `x.<tf> = p.CurrentToken`.
